@@ -84,7 +84,8 @@ class C17(Prop):
             re.reverse()
         return {'formula': f, 'kind': kind, 'data': data, 'n': n, 're': re, 'shape': shape, 'perm': rng.random(),
                 'feed': rng.choice(['disjoint', 'disjoint', 'repeat-frontier', 'frontier-only', 'staggered', 'idle-poll']),
-                'stagger': [rng.randint(0, 2) for _ in range(4)], 'structs': rng.random() < 0.2}
+                'stagger': [rng.randint(0, 2) for _ in range(4)], 'structs': rng.random() < 0.2,
+                'served': rng.random() < 0.25}
 
     def judge_small(self, case):
         v = Verdict()
@@ -137,7 +138,25 @@ class C17(Prop):
             if kind.startswith('ct_on') and case.get('structs') and case.get('feed') != 'staggered':
                 sdm['structify'] = True             # inputs as (nested) fields of one object-typed variable
                 v.info['class:struct-inputs'] = 1
-            m = drive.Mon(api, sdm)
+            if case.get('served') and kind in ('dt_on', 'ct_on') and sup and shape == 'plain' and 'structify' not in sdm:
+                # the object has monitored another formula before: parse(A), two updates, then its text is replaced
+                # by this specification and parsed (what a requirement editor with a live monitor does)
+                v.info['class:object-monitored-another-formula-before'] = 1
+                stage = 'earlier formula'
+                nm0 = sorted(supplied)[0]
+                m = drive.Mon(api, dict(sdm, text='(once (%s >= 1))' % nm0))
+                if kind == 'dt_on':
+                    for i in range(2):
+                        m.update(i - 2, [(k, data[k][i % len(data[k])]) for k in supplied])
+                else:
+                    # (earlier stamps: time goes on when the new text takes over)
+                    m.update(*[[k, [[float(i - 2), data[k][i % len(data[k])]] for i in range(2)]] for k in supplied])
+                stage = 'parse of the new text'
+                m.spec.spec = text
+                m.parse()
+                stage = 'first evaluation'
+            else:
+                m = drive.Mon(api, sdm)
             if kind.endswith('pastified'):
                 stage = 'pastify'
                 m.pastify()
